@@ -151,6 +151,9 @@ class Bed12Leg(object):
                     x = draw(st.one_of(st.just(a), st.integers(a, b)))
                     y = draw(st.integers(x, b))
                     cds.append([x, y])
+            if cds and draw(st.integers(0, 4)) == 0:
+                # the last CDS runs past the transcript's end (a stop codon annotated outside the mRNA): still a thick feature
+                cds[-1][1] = tend + draw(st.sampled_from([1, 3]))
             utrs = []
             if exons and draw(st.booleans()):
                 utrs.append([exons[0][0], draw(st.integers(exons[0][0], exons[0][1]))])
